@@ -66,7 +66,7 @@ def trees(maxlen):
     return out
 
 
-def mk_script(tid, shape, kinds, variant, masks, rng, n_ent, n_raised=0, dead=(), threads=4, tree=()):
+def mk_script(tid, shape, kinds, variant, masks, rng, n_ent, n_raised=0, dead=(), threads=4, tree=(), doomed=()):
     members = []
     for k, kind in enumerate(kinds):
         ids = list(masks[k % len(masks)])
@@ -81,7 +81,7 @@ def mk_script(tid, shape, kinds, variant, masks, rng, n_ent, n_raised=0, dead=()
             m["churn"] = [i for i in m["ids"] if rng.random() < 0.3]
         members.append(m)
     return {"tid": tid, "shape": shape, "variant": variant, "n_ent": n_ent, "n_raised": n_raised,
-            "dead": list(dead), "threads": threads, "tree": list(tree), "members": members}
+            "dead": list(dead), "doomed": list(doomed), "threads": threads, "tree": list(tree), "members": members}
 
 
 def gen_scripts(seed, tier, want_par):
@@ -133,8 +133,11 @@ def gen_scripts(seed, tier, want_par):
                     n_ent = rng.choice([0, 1, 64, 65])
                     dead = [i for i in range(n_ent) if rng.random() < 0.1]
                     n_raised = rng.randint(0, 2)
+                # deferred deletions pending on some entities: of the dying ones (deleted for good right
+                # after) and of some that stay alive until a maintain that never comes
+                doomed = [i for i in range(n_ent) if rng.random() < (0.5 if i in dead else 0.1)]
                 scripts.append(mk_script(tid, shape, kinds, v, masks, rng, n_ent, n_raised, dead,
-                                         threads=pools[(ci + tid) % len(pools)], tree=tr[(ci * 7 + tid) % len(tr)]))
+                                         threads=pools[(ci + tid) % len(pools)], tree=tr[(ci * 7 + tid) % len(tr)], doomed=doomed))
                 tid += 1
     return scripts
 
